@@ -7,4 +7,5 @@ import MW.Props.C13
 #print axioms MW.Props.C13.update_config_sound
 #print axioms MW.Props.C13.swap_in_wire
 #print axioms MW.Props.C13.swap_out_wire
+#print axioms MW.Props.C13.config_changes_only_by_update
 #print axioms MW.Props.C13.treasury_interface_is_modelled
